@@ -78,6 +78,9 @@ SPEC = dict(
          "through SamplerFactory; StressRelief after UpdateFromConfig): small rates, the critical rates floor(U/h)-1..+1 of "
          "that very hash value, boundaries 1, 2, 65535..65537, 2^31-1..2^31+1, 2^32-2, 2^32-1 (stress: 0, 2^32, 2^63, 2^64-1), "
          "log-uniform rates, and (deterministic only) rates outside 1..2^32-1 that validation accepts (0, negative, >= 2^32); "
+         "interleaved (30% of ops) a history on ONE long-lived real StressRelief per case (real Start, loop off): sreload "
+         "<mode> <rate> (UpdateFromConfig), srecalc (Recalc sets stressed from the mode), sask <id> answered by the long-lived "
+         "instance and by a fresh one at the rate configured last; "
          "some cases end with a frac op (4000 pseudo-random IDs at a small rate). non-trivial = some trace ID of the case is "
          "kept at one rate and dropped at another; distinct by transcript hash",
     trusted_base=["crypto/sha1, encoding/binary and dgryski/go-wyhash as called by the harness to produce the hash graph "
@@ -86,7 +89,8 @@ SPEC = dict(
     manifest=dict(
         text="Lean theorems over all hash values and all rates for both samplers: the decision is a function of (hash, rate) only, "
              "two instances agree, rate <= 1 keeps everything, keep <=> hash*rate <= MaxUint (threshold floor(U/rate)), nesting "
-             "(kept at N => kept at every M <= N), and exactly ceil(2^w/N) of the 2^w hash values are kept (fraction in [1/N, 1/N+2^-w)); "
+             "(kept at N => kept at every M <= N), after any history of reloads and stressed/unstressed changes a long-lived StressRelief "
+             "decides by the last configured rate only (stress_history_independent), and exactly ceil(2^w/N) of the 2^w hash values are kept (fraction in [1/N, 1/N+2^-w)); "
              "fixed-width effects (uint32(int) truncation, division by zero at Start) are modelled as they are in the code. The model is "
              "tied to sample/deterministic.go and collect/stressRelief.go by replaying generated (trace ID, rate) pairs on the real "
              "samplers, with the real SHA-1/wyhash value passed as data, and comparing keep, rate and reason with the model; a monitor "
